@@ -15,7 +15,9 @@ def unpivot_rows(rows, fields_to_unpivot, fields_to_keep, extra_value):
         for unpivot_field in fields_to_unpivot:
             new_row = copy.deepcopy(unpivot_field['keys'])
             for field in fields_to_keep:
-                new_row[field] = row[field]
+                value = row[field]
+                # Rows made from the same source row must not share their array / object cells
+                new_row[field] = copy.deepcopy(value) if isinstance(value, (list, dict)) else value
             new_row[extra_value['name']] = row.get(unpivot_field['name'])
             yield new_row
 
